@@ -38,6 +38,24 @@ class CallBudgetExceeded(BaseException):
     for 'runs without bound': a loop over a corrupt count that never reads is invisible to the read budget)"""
 
 
+def _owner(frame) -> str:
+    """Stable name for where a runaway loop lives: the nearest box-level function (parse / load / lazy_load /
+    toJSON of a class in mp4.py) up the stack, not the helper that happened to run when the budget ran out."""
+    fr = frame
+    while fr is not None:
+        code = fr.f_code
+        if code.co_filename.endswith("/mpeg/mp4.py") and code.co_name in ("parse", "load", "lazy_load", "_to_json", "parse_payload"):
+            loc = fr.f_locals
+            owner = loc.get("clz") or loc.get("cls") or loc.get("Box") or (type(loc["self"]) if "self" in loc else None)
+            cname = getattr(owner, "__name__", None) or "?"
+            if cname == "LazyLoadedBox" and "self" in loc:
+                cname = getattr(getattr(loc["self"], "_box_class", None), "__name__", cname)
+            return f"{cname}.{code.co_name}"
+        fr = fr.f_back
+    code = frame.f_code
+    return code.co_filename.rsplit("/", 1)[-1] + ":" + code.co_name
+
+
 class CallBudget:
     def __init__(self, limit: int):
         self.limit, self.n, self.hit = limit, 0, None
@@ -52,7 +70,7 @@ class CallBudget:
                 self.n += 1
                 if self.n > self.limit and "/dashlive/" in frame.f_code.co_filename:
                     sys.setprofile(None)
-                    self.hit = frame.f_code
+                    self.hit = _owner(frame)
                     raise CallBudgetExceeded()
         sys.setprofile(prof)
         return self
@@ -174,10 +192,12 @@ def _try_parse(data: bytes, mode: str, lazy: bool) -> str:
     except ParseBudgetExceeded as exc:
         _slot[1] = str(exc)
         tb = exc.__traceback__
+        last = None
         while tb is not None:
             if "/dashlive/" in tb.tb_frame.f_code.co_filename:
-                _slot[0] = tb.tb_frame.f_code
+                last = tb.tb_frame
             tb = tb.tb_next
+        _slot[0] = _owner(last) if last is not None else None
         return _BUDGET
     except MemoryError as exc:
         tb = exc.__traceback__
@@ -203,6 +223,8 @@ def _slot_where() -> str:
     _slot[0] = None
     if code is None:
         return "?"
+    if isinstance(code, str):
+        return code
     return code.co_filename.rsplit("/", 1)[-1] + ":" + code.co_name
 
 
